@@ -34,6 +34,9 @@ type History struct {
 	// and some unpopulated lists are filled and truncated to length 0, which
 	// leaves empty non-nil slices with spare capacity.
 	TruncateLists bool
+	// EmptyUnknown: messages without unknown fields get a non-nil, zero-length
+	// unknown-field slice (what SetUnknown(RawFields{}) leaves behind).
+	EmptyUnknown bool
 	// SizeHint (struct builder): make maps with a capacity hint.
 	SizeHint int
 	// Between, if set, is called between insertions with the root message.
@@ -165,6 +168,8 @@ func (h *History) fillReflect(dst protoreflect.Message, av protoreflect.Message)
 	}
 	if u := av.GetUnknown(); len(u) > 0 {
 		dst.SetUnknown(append(protoreflect.RawFields{}, u...))
+	} else if h.EmptyUnknown {
+		dst.SetUnknown(protoreflect.RawFields{})
 	}
 }
 
@@ -390,6 +395,8 @@ func (h *History) fillStruct(pv reflect.Value, av protoreflect.Message) error {
 	if u := av.GetUnknown(); len(u) > 0 {
 		// unknownFields is unexported: go through the reflection API for this one.
 		pv.Interface().(proto.Message).ProtoReflect().SetUnknown(append(protoreflect.RawFields{}, u...))
+	} else if h.EmptyUnknown {
+		pv.Interface().(proto.Message).ProtoReflect().SetUnknown(protoreflect.RawFields{})
 	}
 	return nil
 }
